@@ -50,7 +50,9 @@ Cast == /\ IsEv("cast") /\ UNCHANGED decl
              [] E.own = 2 -> E.exc = "KeyError"
              [] OTHER -> IF E.t = E.u THEN E.exc = "" /\ E.r = 1 ELSE E.exc = "ValueError"
 
-Next == Reset \/ End \/ Decl \/ RtOk \/ RtTooMany \/ Look \/ Cast
+(* no type at all (NULL) where a type is expected: ValueError, like type_of(NULL) *)
+NullType == IsEv("nulltype") /\ E.exc = "ValueError" /\ UNCHANGED decl
+Next == Reset \/ End \/ Decl \/ RtOk \/ RtTooMany \/ Look \/ Cast \/ NullType
 Spec == Init /\ [][Next]_vars
 Accepted == LET d == TLCGet("stats").diameter IN
             /\ PrintT(<<"TRACE_MATCHED", d - 1, Len(T)>>)
